@@ -764,6 +764,9 @@ func (in *Interp) exec(th *Thread, fr *Frame, instr ssa.Instruction) {
 	case *ssa.Next:
 		in.set(fr, ins, in.iterNext(in.get(fr, ins.Iter).(*IterV), ins))
 	case *ssa.FieldAddr:
+		if o, ok := in.get(fr, ins.X).(Opaque); ok {
+			panic(abortf("field of an opaque object (%s) in %s", o.What, fr.fn.String()))
+		}
 		p := in.get(fr, ins.X).(Ptr)
 		if p.Base == nil {
 			in.goPanic(th, "nil dereference", "invalid memory address or nil pointer dereference")
